@@ -85,8 +85,28 @@ def json_value(rng, var, world):
     return v
 
 
+def share_ids(rng, world, doc):
+    """Name group instances after persons (ids are only unique within an entity), in
+    another order than the persons are listed - only when every person is allocated
+    in that entity (automatically created groups take their person's id)."""
+    persons = list(doc["persons"])
+    for ent in world["entities"]:
+        if ent.get("is_person"):
+            continue
+        groups = doc.get(ent["plural"], {})
+        placed = {p for g in groups.values() for lst in g.values() if isinstance(lst, list) for p in lst}
+        if len(placed) != len(persons) or len(groups) > len(persons) or not groups:
+            continue
+        names = persons[:]
+        rng.shuffle(names)
+        doc[ent["plural"]] = {names[k]: g for k, (gid, g) in enumerate(groups.items())}
+    return doc
+
+
 def gen_doc(rng: random.Random, world: dict, n_null=None) -> dict:
     doc = gen_situation(rng, world, max_persons=4)
+    if chance(rng, 0.3):
+        doc = share_ids(rng, world, doc)
     by_ent = {}
     for v in world["variables"]:
         by_ent.setdefault(v["entity"], []).append(v)
